@@ -1467,6 +1467,12 @@ func runC20(c *Ctx) error {
 		}
 		var cases []c20Case
 		for _, op := range ops {
+			if strings.HasPrefix(op, "c20first") {
+				if err := r.firstStartChecks(); err != nil {
+					return err
+				}
+				continue
+			}
 			cs, err := c20ParseOp(op)
 			if err != nil {
 				return err
@@ -1500,6 +1506,9 @@ func runC20(c *Ctx) error {
 		c.R.KnownReplayed[k.ID] = st
 	}
 	if err := r.fixedChecks(l); err != nil {
+		return err
+	}
+	if err := r.firstStartChecks(); err != nil {
 		return err
 	}
 	cases := r.generate(lib.Rng(c.Seed, "c20"), c.Thorough)
